@@ -4,4 +4,6 @@
 
 pub mod alloc;
 pub mod child;
+pub mod fs;
 pub mod parent;
+pub mod time;
